@@ -225,9 +225,13 @@ def check_F3(ctx, facts, cfg):
     # generic from_body
     fbs = [b for b in facts.bodies.values() if b.crate == 'datacake_rpc' and b.kind == 'coroutine'
            and 'RequestContents>::from_body' in b.name and '<Msg as' in b.name]
-    if not fbs:
+    # SEM: the generic decoder interpreted against an admitted frame, a refused frame and an unreadable body (client_abs.check_from_body);
+    # the structural clause below is the fallback
+    import client_abs
+    fb_sem = client_abs.check_from_body(ctx, facts, 'C12.SEM', cfg + '|')
+    if not fbs and not fb_sem:
         ctx.bad('C12.F3', cfg + '|from_body', '', 'generic RequestContents::from_body not found (fail closed)')
-    for fb in fbs:
+    for fb in ([] if fb_sem else fbs):
         calls = list(fb.calls())
         using = [(b, t) for b, t in calls if cname(t) == RK + 'view::DataView::using']
         other = [(b, t) for b, t in calls if cname(t) in tables.RKYV_UNCHECKED or cname(t) in tables.RKYV_CHECKED]
@@ -262,14 +266,31 @@ def check_F3(ctx, facts, cfg):
                'request content comes only from DataView::using; its error becomes Status::invalid' if good else
                'generic from_body does not decode through the single guarded doorway / does not map the refusal to Status::invalid')
     # try_handle: on_message only on the success edge of from_body
+    FB = 'datacake_rpc::request::RequestContents::from_body'
+    OM = 'datacake_rpc::handler::Handler::on_message'
     ths = [b for b in facts.bodies.values() if b.crate == 'datacake_rpc' and b.kind == 'coroutine' and 'OpaqueMessageHandler>::try_handle' in b.name]
+    if ths and not any(cname(t) == OM for th in ths for _b, t in th.calls()):
+        # the typed dispatch lives elsewhere (a type-erasing closure, a helper): by role — the bodies of the crate that call Handler::on_message
+        ths = [b for b in facts.bodies.values() if b.crate == 'datacake_rpc' and b.kind in ('coroutine', 'closure', 'fn', 'method') and not b.d['promoted'] and b.cfg is not None
+               and any(cname(t) == OM for _b, t in b.calls())]
+    # decoders: async functions of the crate every Ok return of which lies behind the success edge of from_body (the decode wrapped in a helper)
+    decoders = set()
+    for b in facts.bodies.values():
+        if b.crate != 'datacake_rpc' or b.kind != 'coroutine' or not b.name.endswith('::{closure#0}') or b.cfg is None:
+            continue
+        fbc = [(bb, t) for bb, t in b.calls() if cname(t) == FB]
+        oks_ = ok_return_blocks(b)
+        if len(fbc) == 1 and oks_ and not any(cname(t) == OM for _b, t in b.calls()):
+            re_d = ResultEdges(b, Flow(b), fbc[0][0])
+            if re_d.inspected and all(re_d.ok_dominates(o) for o in oks_) and not any(o in re_d.reachable_from_err() for o in oks_):
+                decoders.add(b.name[:-len('::{closure#0}')])
     if not ths:
         ctx.bad('C12.F3', cfg + '|try_handle', '', 'PhantomHandler::try_handle not found (fail closed)')
     for th in ths:
         flow = Flow(th)
         calls = list(th.calls())
-        fb = [(b, t) for b, t in calls if cname(t) == 'datacake_rpc::request::RequestContents::from_body']
-        om = [(b, t) for b, t in calls if cname(t) == 'datacake_rpc::handler::Handler::on_message']
+        fb = [(b, t) for b, t in calls if cname(t) == FB or (cname(t) and strip_generics(cname(t)) in decoders)]
+        om = [(b, t) for b, t in calls if cname(t) == OM]
         good = len(fb) == 1 and len(om) >= 1
         if good:
             re_ = ResultEdges(th, flow, fb[0][0])
@@ -329,6 +350,11 @@ def check_F4(ctx, facts, cfg):
                'an error reply can be built without serialising the status at hand%s: the client receives another request\'s code / message' % (
                    ' (the body comes out of the static %s)' % sorted(set(from_static)) if from_static else ''))
     si = [b for b in facts.bodies.values() if b.crate == 'datacake_rpc' and b.kind == 'coroutine' and 'RpcContext' in b.name and 'send_inner' in b.name]
+    # SEM: the client's exchange interpreted (client_abs.check_exchange): the reply is decoded by from_body from this response's body, an
+    # error status through DataView::using from this response's body; the structural clause below is the fallback
+    import client_abs
+    if client_abs.check_exchange(ctx, facts, 'C12.SEM', cfg + '|client-'):
+        si = []
     for b in si:
         grp = facts.group(facts.root_of(b))
         allcalls = [(g, bb, t) for g in grp for bb, t in g.calls()]
